@@ -460,7 +460,7 @@ def sigfn(results_by_id):
                 single = results_by_id.get(cid)
                 if single and single['verdict'] == r['verdict']:   # (single-switch cases explain themselves)
                     return f'{r["verdict"]} block={label} xform={name}'
-        return f'{r["verdict"]} blocks={"+".join(case["switches"]) or "base"} xform={xf}'
+        return f'{r["verdict"]} blocks={"+".join(case["switches"]) or "base"} xform={pipe if xf == pipe + "()" else xf}'
     return sig
 
 
@@ -479,8 +479,11 @@ def run(ctx):
         pp['changed_ok'] += int(r['verdict'] == 'ok' and bool(r.get('changed')))
     for p, pp in per_pipe.items():
         ctx.require(pp['changed_ok'] >= 3, f'vacuous: pipeline {p} has only {pp["changed_ok"]} changed-and-equal programs')
+    transient = [f'{r["id"]}: {r["transient_first_attempt_error"]}' for r in results if r.get('transient_first_attempt_error')]
+    if transient:
+        ctx.note(f'{len(transient)} cases needed a second attempt of the Loki step (transient first failure): {transient[:3]}')
     ctx.cov.update(
-        exhaustive=True, per_pipeline=per_pipe,
+        exhaustive=True, transient_retries=len(transient), per_pipeline=per_pipe,
         bound=dict(max_switches=d, max_switches_with_nondefault_options=1, switches=len(SWITCHES), pipelines=len(PIPELINES),
                    variants=len(variants()), inputs=3),
         rule=f'all combinations of <= 1 of {len(SWITCHES)} feature switches on the driver/kernel template x every variant '
